@@ -114,7 +114,9 @@ def run(ctx):
     ctx.rule("R3.reserved-prefix", "the temp file name starts with TEMP_PREFIX; is_temp_file_name tests the same constant; list() consults it before producing a key", floor=3, shape_dependent=True)
     ctx.rule("R4.write-once", "in put, write_atomic is reachable only through Ok(false) of try_exists; Ok(true) returns ObjectAlreadyExists; put_overwrite has no existence check", floor=3)
     ctx.rule("R5.validate-first", "key_path dominates every filesystem call of put/put_overwrite/get/delete, fs calls only on its Ok arm; key_path/validate_key reject non-plain segments", floor=6)
+    ctx.rule("R7.segmentation-agreement", "the key validator and the path builder (and the lister that turns paths back into keys) cut a key into segments with the same separator pattern: what is validated is what is joined onto the root", floor=3)
     ctx.rule("R6.codec-pairing", "compress exactly once on each writer's success path; decompress exactly once on get's success path", floor=3)
+    segmentation_rule(ctx, prog)
 
     local = [b for b in prog.bodies if b.key.startswith("cbh_storage::local::") or "cbh_storage::local::LocalStorage as" in b.key]
     for b in local:
@@ -571,3 +573,35 @@ def run(ctx):
             ok = ok and okr
             det += f"; decompress input is the file content read: {okr}"
         ctx.ob("R6.codec-pairing", m, ok, b.loc(), det)
+
+
+def segmentation_rule(ctx, prog):
+    from ..mir import resolve_const
+    RID = "R7.segmentation-agreement"
+    want = {"validator": "keys::validate_key", "builder": "local::LocalStorage::key_path"}
+    pats = {}
+    for role, suffix in want.items():
+        b = prog.one(suffix)
+        if b is None:
+            ctx.missing(RID, suffix)
+            continue
+        ctx.fn(b)
+        sp = [(bb, t) for bb, t in b.calls() if (t["callee"].get("method") or "").startswith(("split", "rsplit")) and "str" in callee_key(t["callee"])]
+        sig = sorted((t["callee"].get("method"), tuple(ta.get("s") for ta in t["callee"].get("targs", [])),
+                      tuple((resolve_const(b, a) or {}).get("val") for a in t["args"][1:])) for _bb, t in sp)
+        pats[role] = sig
+        ctx.ob(RID, f"{role}.splits-once", len(sp) == 1, b.loc(), f"{suffix}: split calls {sig}")
+    if len(pats) == 2:
+        ok = pats["validator"] == pats["builder"] and all(v is not None for sig in pats.values() for _m, _t, vs in sig for v in vs)
+        ctx.ob(RID, "validator==builder", ok, "", f"validator pattern {pats['validator']} vs builder pattern {pats['builder']}")
+    # the builder joins exactly the segments it iterates (no other transformation of the key between validation and join)
+    b = prog.one("local::LocalStorage::key_path")
+    if b is not None:
+        v = [(bb, t) for bb, t in b.calls() if callee_key(t["callee"]).endswith("keys::validate_key")]
+        sp = [(bb, t) for bb, t in b.calls() if (t["callee"].get("method") or "").startswith("split") and "str" in callee_key(t["callee"])]
+        ok = len(v) == 1 and len(sp) == 1
+        if ok:
+            a = Slice(b, through_calls=False).run(v[0][1]["args"][0])["args"]
+            c = Slice(b, through_calls=False).run(sp[0][1]["args"][0])["args"]
+            ok = a == c and bool(a) and v[0][0] in b.dominators(unwind=False)[sp[0][0]]
+        ctx.ob(RID, "builder.validates-what-it-splits", ok, b.loc(), "validate_key and split receive the same key parameter, validation first")
